@@ -9,7 +9,8 @@ IMPL_MODULES = ("impl_text", "impl_cli")
 RULE = ("argument vectors: a date-time in every complete/reduced notation (basic/extended, calendar/ordinal/week, with and without time and "
         "zone, expanded years) with 0-3 offsets of either sign (incl. the '-P...' spelling and month/year offsets); pairs of date-times "
         "with and without --as-total h/m/s; recurrences in the three notations with --max 0..12 and an optional print format; the four "
-        "--calendar modes, --utc, ISODATETIMECALENDAR; malformed text in every positional slot. non-trivial = at least one offset, a "
+        "--calendar modes, --utc, ISODATETIMECALENDAR; the keyword ref with --ref / ISODATETIMEREF (option, variable, both); pairs with "
+        "--offset1/--offset2; pairs with a duration --print-format; offsets in the date-time-like duration notation; malformed text in every positional slot. non-trivial = at least one offset, a "
         "pair, or a recurrence.")
 EXPLANATION = ("the command-line model (Model/Cli.v: date_parse incl. the two ISO strptime formats, date_shift, date_diff, recurrence expansion) is compared with the real command line; oracle: main(argv) is run in-process with captured stdout/SystemExit and compared with the same computation through the "
                "library API (parse with dump_as_parsed, add the parsed offsets, dump in the same notation; first + printed d == second; "
@@ -73,6 +74,26 @@ def generate(rng, tier):
             cases.append(Case(["cli_rec %s %d %s%s" % (md, mx, enc(rec), " " + enc(fmt) if fmt else "")],
                               ["recurrence", "mode:" + md, "max:%d" % mx], fam="R"))
         elif r < 0.86:
+            # --ref / ISODATETIMEREF and the keyword "ref"; pairs with --offset1/--offset2; pairs with a duration print format
+            k = rng.choice(["ref", "ref", "off12", "off12", "dfmt"])
+            if k == "ref":
+                T, T2 = rand_text(rng, "G", big=False), rand_text(rng, "G", big=False)
+                off = rng.choice(OFFSETS)
+                which = rng.choice(["opt", "env", "both"])
+                env = ["ISODATETIMEREF=" + (T if which == "env" else T2)] if which in ("env", "both") else []
+                opt = ["--ref=" + T] if which in ("opt", "both") else []
+                lines = ["cli " + " ".join(enc(e) for e in env) + " -- " + " ".join(enc(a) for a in opt + ["ref", "--offset=" + off]),
+                         "cli -- " + " ".join(enc(a) for a in [T, "--offset=" + off])]
+                cases.append(Case(lines, ["ref", "which:" + which], fam="Q", what="ref"))
+            elif k == "off12":
+                t1, t2 = rand_text(rng, md, big=False), rand_text(rng, md, big=False)
+                o1, o2 = rng.choice(OFFSETS), rng.choice(OFFSETS)
+                cases.append(Case(["cli_diff_off %s %s %s %s %s" % (md, enc(t1), enc(t2), enc(o1), enc(o2))],
+                                  ["diff-offsets", "mode:" + md], fam="O"))
+            else:
+                t1, t2 = rand_text(rng, md, big=False), rand_text(rng, md, big=False)
+                cases.append(Case(["cli_diff_fmt %s %s %s" % (md, enc(t1), enc(t2))], ["diff-format", "mode:" + md], fam="F"))
+        elif r < 0.91:
             # --calendar against ISODATETIMECALENDAR: the option wins; alone, each selects what it says
             flag = {"G": "gregorian", "360": "360day", "365": "365day", "366": "366day"}
             m_env, m_opt = rng.choice(MODES), rng.choice(MODES)
@@ -116,7 +137,7 @@ def model_lines(c):
 
 def corr(c):
     """model vs implementation on the command line's own output"""
-    if not c.model or c.meta["fam"] == "E":
+    if not c.model or c.meta["fam"] in ("E", "Q", "O", "F"):
         return []
     m = c.model[0]
     cli = c.impl[0].split(" ; ", 1)[0].strip()
@@ -136,8 +157,25 @@ def judge(c):
     out = c.impl[0]
     fam = c.meta["fam"]
     res = corr(c)
-    if out.startswith(("EXC", "HANG")) or " ; " not in out and fam not in ("M", "E"):
+    if out.startswith(("EXC", "HANG")) or " ; " not in out and fam not in ("M", "E", "Q"):
         return res + [("violation", "%s -> %s (a traceback or hang would reach the user)" % (c.lines[0], out))]
+    if fam == "Q":
+        if out != c.impl[1]:
+            res.append(("violation", "%s prints %s but %s prints %s (--ref / ISODATETIMEREF must select the reference the keyword ref stands for; the option wins)" % (
+                c.lines[0], out, c.lines[1], c.impl[1])))
+        return res
+    if fam == "O":
+        cli, verdict = [x.strip() for x in out.split(" ; ", 1)]
+        if verdict.startswith("NOTADDS") or (verdict.startswith("LIBERR") and not cli.startswith("EXIT")) or \
+                (verdict == "NA" and not cli.startswith("EXIT")):
+            res.append(("violation", "%s: prints %s; %s (first shifted by --offset1, plus the printed duration, must be second shifted by --offset2)" % (
+                c.lines[0], cli, verdict)))
+        return res
+    if fam == "F":
+        cli, verdict = [x.strip() for x in out.split(" ; ", 1)]
+        if verdict.startswith(("FMTBAD", "DIFFERENT")):
+            res.append(("violation", "%s: prints %s; %s" % (c.lines[0], cli, verdict)))
+        return res
     if fam == "E":
         want = c.impl[1].split(" ; ", 1)[0].strip()
         if out != want:
